@@ -36,7 +36,8 @@ const (
 	c08T0        = 1000 * 24 * 3600
 	c08RingLen   = 128 // ring of per-second buckets
 	c08Future    = 3   // seconds an event may be ahead of the shard clock before it is clamped
-	c08MaxEvents = 50
+	c08MaxEvents = 50   // per series: event j of a series carries counter 2^j
+	c08MaxTotal  = 2500 // events per history
 	// An event must fit into the ring for every resolution (up to 60 s: rounded ts + 60 + 0..59) and every
 	// allowed future offset: CurrentTime+3+119 <= SendTime+127. Beyond that the receive queue "has a gap".
 	c08GapLimit = c08RingLen - 1 - c08Future - 119
@@ -66,6 +67,29 @@ type c08Op struct {
 	Sh  int    `json:"sh,omitempty"`  // drain: bit mask of shards
 	Str int    `json:"str,omitempty"` // map: tag index*100+value index
 	Who int    `json:"who,omitempty"` // map: 1 A, 2 B, 3 both
+	// burst: N events of metric M with N distinct series (numbered Base, Base+1, ...), all with timestamp now+Ts
+	M    int `json:"m,omitempty"`
+	N    int `json:"n,omitempty"`
+	Base int `json:"base,omitempty"`
+	Ts   int `json:"ts,omitempty"`
+}
+
+// c08BurstEvent builds event k of a burst: the series number in base 4 says which of the tags 0..4 are set
+// (digit 0: absent) and to which value; agent B sends the tags in reverse order.
+func c08BurstEvent(op c08Op, k int) *c08Ev {
+	code := (op.Base + k) % 1024
+	ev := &c08Ev{M: op.M, Ts: op.Ts, Kind: k % 3}
+	for i := 0; i < 5; i++ {
+		d := code % 4
+		code /= 4
+		if d != 0 {
+			ev.Tags = append(ev.Tags, c08Tag{I: i, V: d - 1})
+		}
+	}
+	for i := len(ev.Tags) - 1; i >= 0; i-- {
+		ev.PermB = append(ev.PermB, i)
+	}
+	return ev
 }
 
 type c08Case struct {
@@ -213,6 +237,17 @@ func c08MakeAgent(c c08Case, now time.Time, seed uint64) *Agent {
 	return a
 }
 
+type c08Desc struct {
+	who string
+	i   int
+	st  *c08EvState
+}
+
+func (d c08Desc) String() string {
+	st := d.st
+	return fmt.Sprintf("agent %s event #%d (op %d, metric %s res %d, series %s, ts %d clamped %d, shard clock %d, send cursors %v)", d.who, d.i, st.op, st.metric.meta.Name, st.res, st.series, st.tsEff, st.clamped, st.cur, st.send)
+}
+
 type c08Occ struct {
 	shard      int
 	bucketTime uint32
@@ -239,7 +274,8 @@ type c08EvState struct {
 }
 
 type c08Run struct {
-	evs   []*c08EvState
+	evs      []*c08EvState
+	bySeries map[string][]int // series -> indices into evs, in arrival order
 	jumps [][]int // per shard: op indices of flushes that moved SendTime by a whole ring or more
 	cls   map[string]bool
 }
@@ -252,7 +288,7 @@ func c08Execute(t vpT, c c08Case, variantB bool) *c08Run {
 	}
 	now := time.Unix(int64(c08T0+c.StartOff), int64(c.StartMs)*1e6)
 	a := c08MakeAgent(c, now, 1)
-	run := &c08Run{jumps: make([][]int, c.Shards), cls: map[string]bool{}}
+	run := &c08Run{jumps: make([][]int, c.Shards), cls: map[string]bool{}, bySeries: map[string][]int{}}
 	rev := map[int32]string{}
 	addMap := func(code int) {
 		i, v := code/100, code%100
@@ -290,7 +326,6 @@ func c08Execute(t vpT, c c08Case, variantB bool) *c08Run {
 		}
 		return c08Series(k.Metric, tags)
 	}
-	nEv := 0
 	observe := func(shard int, b *data_model.MetricsBucket, opIdx int) {
 		for _, item := range b.MultiItems {
 			if _, ok := mids[item.Key.Metric]; !ok {
@@ -300,26 +335,27 @@ func c08Execute(t vpT, c c08Case, variantB bool) *c08Run {
 			for _, tv := range item.Top {
 				cnt += tv.Value.Count()
 			}
-			if cnt != math.Trunc(cnt) || cnt < 1 || cnt >= math.Ldexp(1, nEv) {
-				t.Fatalf("shard %d bucket %d row %s ts %d has count %v which is not a sum of distinct accepted event weights (%d events so far)", shard, b.Time, canon(&item.Key), item.Key.Timestamp, cnt, nEv)
+			series := canon(&item.Key)
+			lst := run.bySeries[series]
+			if cnt != math.Trunc(cnt) || cnt < 1 || cnt >= math.Ldexp(1, len(lst)) {
+				t.Fatalf("shard %d bucket %d row %s ts %d has count %v which is not a sum of distinct weights of the %d events sent for that series so far", shard, b.Time, series, item.Key.Timestamp, cnt, len(lst))
 			}
 			bits := uint64(cnt)
-			for i := 0; i < nEv; i++ {
-				if bits&(1<<uint(i)) != 0 {
-					run.evs[i].occ = append(run.evs[i].occ, c08Occ{shard: shard, bucketTime: b.Time, rowTs: item.Key.Timestamp, series: canon(&item.Key), deliverOp: opIdx})
+			for j, i := range lst {
+				if bits&(1<<uint(j)) != 0 {
+					run.evs[i].occ = append(run.evs[i].occ, c08Occ{shard: shard, bucketTime: b.Time, rowTs: item.Key.Timestamp, series: series, deliverOp: opIdx})
 				}
 			}
 		}
 	}
 	stopped := false
 	var scratch []byte
-	for oi, op := range c.Ops {
-		switch op.K {
-		case "ev":
-			if nEv >= c08MaxEvents || op.Ev == nil || op.Ev.M < 0 || op.Ev.M >= len(ms) {
+	nEv := 0
+	applyEvent := func(oi int, ev *c08Ev) {
+		{
+			if nEv >= c08MaxTotal || ev == nil || ev.M < 0 || ev.M >= len(ms) {
 				t.Fatalf("bad case")
 			}
-			ev := op.Ev
 			m := ms[ev.M]
 			nowUnix := uint32(now.Unix())
 			st := &c08EvState{op: oi, ev: ev, metric: m, res: m.resolution(c), stopped: stopped}
@@ -330,7 +366,7 @@ func c08Execute(t vpT, c c08Case, variantB bool) *c08Run {
 			if variantB && len(ev.PermB) == len(ev.Tags) {
 				copy(order, ev.PermB)
 			}
-			mb := tlstatshouse.MetricBytes{Name: []byte(m.meta.Name), Counter: math.Ldexp(1, nEv)}
+			mb := tlstatshouse.MetricBytes{Name: []byte(m.meta.Name)}
 			tagVals := map[int]string{}
 			var mapState []string
 			for _, ti := range order {
@@ -362,6 +398,11 @@ func c08Execute(t vpT, c c08Case, variantB bool) *c08Run {
 				mb.Unique = []int64{int64(ev.Ts) + 7}
 			}
 			st.series = c08Series(m.meta.MetricID, tagVals)
+			sidx := len(run.bySeries[st.series])
+			if sidx >= c08MaxEvents {
+				t.Fatalf("bad case: too many events for one series")
+			}
+			mb.Counter = math.Ldexp(1, sidx)
 			// worker.fillTime / fillMetricMeta
 			var h data_model.MappedMetricHeader
 			h.ReceiveTime = now
@@ -395,8 +436,22 @@ func c08Execute(t vpT, c c08Case, variantB bool) *c08Run {
 				t.Fatalf("bad case: generated event rejected by mapping: status %d", h.IngestionStatus)
 			}
 			a.ApplyMetric(&mb, &h, &scratch)
+			run.bySeries[st.series] = append(run.bySeries[st.series], len(run.evs))
 			run.evs = append(run.evs, st)
 			nEv++
+		}
+	}
+	for oi, op := range c.Ops {
+		switch op.K {
+		case "ev":
+			applyEvent(oi, op.Ev)
+		case "burst":
+			if op.N < 0 || op.N > 1024 {
+				t.Fatalf("bad case")
+			}
+			for k := 0; k < op.N; k++ {
+				applyEvent(oi, c08BurstEvent(op, k))
+			}
 		case "adv":
 			if stopped {
 				break
@@ -499,7 +554,20 @@ func c08CheckRun(t vpT, c c08Case, r *c08Run, who string) []uint32 {
 	}
 	groups := map[string]grp{}
 	for i, st := range r.evs {
-		desc := fmt.Sprintf("agent %s event #%d (op %d, metric %s res %d, series %s, ts %d clamped %d, shard clock %d, send cursors %v)", who, i, st.op, st.metric.meta.Name, st.res, st.series, st.tsEff, st.clamped, st.cur, st.send)
+		desc := c08Desc{who: who, i: i, st: st}
+		var maxLag int64
+		for _, snd := range st.send {
+			maxLag = max(maxLag, int64(st.cur)-int64(snd))
+		}
+		if st.res == 60 && maxLag >= 6 && maxLag <= 8 && st.clamped == st.cur+c08Future {
+			r.cls["lag6to8-res60-future-ts"] = true
+			if int64(st.clamped%60) <= maxLag-6 { // rounded ts + 60 + last sub-slots would leave the ring
+				r.cls["lag6to8-res60-future-ts-at-boundary"] = true
+			}
+		}
+		if st.res == 60 && maxLag >= 3 && maxLag <= 5 && st.clamped == st.cur+c08Future && st.clamped%60 <= 2 {
+			r.cls["lag3to5-res60-future-ts-at-boundary"] = true
+		}
 		perShard := make([]int, c.Shards)
 		for _, o := range st.occ {
 			perShard[o.shard]++
@@ -759,11 +827,57 @@ func c08Gen() *rapid.Generator[c08Case] {
 			return c08Op{K: "ev", Ev: ev}
 		}
 		all := 1<<uint(c.Shards) - 1
+		if rapid.IntRange(0, 7).Draw(t, "stallmode") == 0 {
+			// Stalled conveyor x 60-second metrics x timestamps at the future clamp x many series: the receive
+			// queue must refuse (or place correctly) exactly where rounded_ts+60+sub-slot would leave the ring.
+			c.HwSlowRes = 60
+			nowMs := c.StartMs
+			cur := func(extraTicks int) int { return c.StartOff + (nowMs+1000*extraTicks)/1000 }
+			tick := func(drain bool) {
+				c.Ops = append(c.Ops, c08Op{K: "adv", Dms: 1000}, c08Op{K: "flush"})
+				nowMs += 1000
+				if drain {
+					c.Ops = append(c.Ops, c08Op{K: "drain", Sh: all})
+				}
+			}
+			for i, n := 0, rapid.IntRange(2, 5).Draw(t, "prelude"); i < n; i++ {
+				tick(true)
+				if rapid.Bool().Draw(t, "preludeev") {
+					c.Ops = append(c.Ops, event())
+				}
+			}
+			// the lag reaches 6..8 around the 6th..8th tick without a drain; aim that tick at a minute boundary
+			aim := rapid.IntRange(5, 8).Draw(t, "aimtick")
+			d := rapid.SampledFrom([]int{0, 0, 0, 1, 1, 2, 59, 3}).Draw(t, "boundaryoff")
+			for (cur(aim)+c08Future)%60 != d {
+				tick(true)
+			}
+			burst := func() {
+				ts := rapid.SampledFrom([]int{3, 3, 3, 3, 3, 3, 4, 7, 2, 0}).Draw(t, "burstts")
+				c.Ops = append(c.Ops, c08Op{K: "burst", M: rapid.SampledFrom([]int{3, 3, 8}).Draw(t, "burstmetric"), N: rapid.IntRange(50, 200).Draw(t, "burstn"), Base: rapid.IntRange(0, 1023).Draw(t, "burstbase"), Ts: ts})
+			}
+			for j, n := 1, rapid.IntRange(8, 11).Draw(t, "stallticks"); j <= n; j++ {
+				tick(false)
+				if j >= 3 {
+					burst()
+				}
+			}
+			for i, n := 0, rapid.IntRange(5, 30).Draw(t, "catchup"); i < n; i++ {
+				c.Ops = append(c.Ops, c08Op{K: "flush"}, c08Op{K: "drain", Sh: all})
+			}
+			for i, n := 0, rapid.IntRange(0, 5).Draw(t, "coda"); i < n; i++ {
+				tick(true)
+				if rapid.Bool().Draw(t, "codaev") {
+					c.Ops = append(c.Ops, event())
+				}
+			}
+			return c
+		}
 		nops := rapid.IntRange(10, 220).Draw(t, "nops")
 		for len(c.Ops) < nops {
 			k := rapid.IntRange(0, 99).Draw(t, "kind")
 			switch {
-			case k < 40 && nEv < c08MaxEvents:
+			case k < 40 && nEv < 36:
 				c.Ops = append(c.Ops, event())
 			case k < 80: // the flusher's tick with a healthy preprocessor
 				c.Ops = append(c.Ops, c08Op{K: "adv", Dms: rapid.SampledFrom([]int{100, 100, 300, 500, 700, 1000, 1000, 1000, 1500, 2500}).Draw(t, "dms")},
@@ -788,7 +902,7 @@ func c08Gen() *rapid.Generator[c08Case] {
 		}
 		if rapid.IntRange(0, 4).Draw(t, "withstop") == 0 { // shutdown while components still write
 			c.Ops = append(c.Ops, c08Op{K: "stop"})
-			for i, n := 0, rapid.IntRange(1, 4).Draw(t, "afterstop"); i < n && nEv < c08MaxEvents; i++ {
+			for i, n := 0, rapid.IntRange(1, 4).Draw(t, "afterstop"); i < n && nEv < 40; i++ {
 				c.Ops = append(c.Ops, event())
 			}
 		}
